@@ -22,6 +22,10 @@ Definition model1 (o : dop) : list bytes :=
     [if code =? 1 then l else match load_array b with Some x => x | None => [] end;
      join_keys (true_keys save_fields save_tags b); l]
   else if code =? 3 then [b; b]
+  else if code =? 4 then
+    (* an account holding [b] is given [arg 1] while the server runs: the manager caches the new account as given,
+       a restart reads the saved named form *)
+    let b' := arg 1 a in [b'; load_named load_table (save_named save_fields save_tags b')]
   else [].
 Definition model (ops : list dop) : list (list bytes) := map model1 ops.
 
@@ -52,6 +56,9 @@ Definition oracle1 (o : dop) (obs : list bytes) : bool :=
      | [] => match keys with [] => true | _ => false end
      | l => (S (count_commas keys) =? List.length l)%nat end)
   else if code =? 3 then bytes_eqb (arg 0 obs) b && bytes_eqb (arg 1 obs) b
+  else if code =? 4 then
+    (* the defined privileges the running server and a restarted one hold are exactly the new ones *)
+    bytes_eqb (mask_defined (arg 0 obs)) (mask_defined (arg 1 a)) && bytes_eqb (arg 1 obs) (mask_defined (arg 1 a))
   else true.
 Definition oracle (ops : list dop) (obs : list (list bytes)) : bool :=
   forallb (fun p => oracle1 (fst p) (snd p)) (combine ops obs).
